@@ -141,10 +141,13 @@ class Doc:
         self.species = {m.getSpecies(i).getId(): m.getSpecies(i) for i in range(m.getNumSpecies())}
         self.parameters = {m.getParameter(i).getId(): m.getParameter(i) for i in range(m.getNumParameters())}
         self.rules = {}
+        self.rate_rules: dict[str, Any] = {}  # quantities (parameters, species references) that follow d/dt = math
         for i in range(m.getNumRules()):
             r = m.getRule(i)
             if r.isAssignment():
                 self.rules[r.getVariable()] = r.getMath()
+            elif r.isRate():
+                self.rate_rules[r.getVariable()] = r.getMath()
         self.ias = {m.getInitialAssignment(i).getSymbol(): m.getInitialAssignment(i).getMath() for i in range(m.getNumInitialAssignments())}
         self.reactions = [m.getReaction(i) for i in range(m.getNumReactions())]
         self.srefs: dict[str, float] = {}
@@ -222,7 +225,7 @@ class Doc:
                     sp = self.species[sr.getSpecies()]
                     if sp.getBoundaryCondition() or sp.getConstant():
                         continue
-                    if sr.isSetId() and (sr.getId() in self.rules or sr.getId() in self.ias):
+                    if sr.isSetId() and (sr.getId() in self.rules or sr.getId() in self.ias or sr.getId() in self.rate_rules):
                         coef = self.value(sr.getId(), state, t, initial=False)
                     else:
                         coef = sr.getStoichiometry() if sr.isSetStoichiometry() else 1.0
@@ -238,6 +241,11 @@ class Doc:
             else:
                 out[sid] = amount_rate[sid] / self.value(sp.getCompartment(), state, t, initial=False)
         return out
+
+    def rate_rule_rates(self, state: dict[str, float], t: float = 0.0) -> dict[str, float]:
+        """d/dt of every quantity under a rate rule (`state` carries their current values next to the species')."""
+        look = lambda n: self.value(n, state, t, initial=False)  # noqa: E731
+        return {k: float(eval_ast(mth, look, self.fdefs, t)) for k, mth in self.rate_rules.items()}
 
     def size_of(self, sid: str) -> float:
         return self.value(self.species[sid].getCompartment(), None, 0.0, initial=True)
